@@ -1370,10 +1370,10 @@ func (s *search) expand(n *node, idx int, maxDepth int, ss *stepStats) {
 }
 
 type levelInfo struct {
-	Depth       int   `json:"depth"`
-	NewStates   int   `json:"new_states"`
-	Transitions int64 `json:"transitions_so_far"`
-	WallS       float64
+	Depth       int     `json:"depth"`
+	NewStates   int     `json:"new_states"`
+	Transitions int64   `json:"transitions_so_far"`
+	WallS       float64 `json:"wall_s"`
 }
 
 func (s *search) collectLevel(depth int) []*node {
